@@ -35,6 +35,11 @@ Rules == <<
   [p |-> Svc(<<"deploy", "labels">>), r |-> "kv"],
   [p |-> <<"networks", "*", "labels">>, r |-> "kv"],
   [p |-> <<"volumes", "*", "labels">>, r |-> "kv"],
+  [p |-> <<"secrets", "*", "labels">>, r |-> "kv"],
+  [p |-> <<"configs", "*", "labels">>, r |-> "kv"],
+  [p |-> Svc(<<"build", "ssh">>), r |-> "kv"],
+  [p |-> Svc(<<"build", "ulimits", "*">>), r |-> "replace"],
+  [p |-> Svc(<<"extra_hosts">>), r |-> "hosts"],
   [p |-> Svc(<<"dns">>), r |-> "strlist-unique"],
   [p |-> Svc(<<"dns_search">>), r |-> "strlist-unique"],
   [p |-> Svc(<<"dns_opt">>), r |-> "strlist-unique"],
@@ -76,6 +81,20 @@ SeqToKV(sq) == IF sq = <<>> THEN <<>>
                     IF k \in DOMAIN rest THEN rest ELSE [kk \in DOMAIN rest \cup {k} |-> IF kk = k THEN ItemVal(Head(sq).v) ELSE rest[kk]]
 ToKV(x) == IF IsM(x) THEN x.v ELSE IF IsL(x) THEN SeqToKV(x.v) ELSE <<>>
 OverKV(b, o) == [k \in DOMAIN b \cup DOMAIN o |-> IF k \in DOMAIN o THEN o[k] ELSE b[k]]
+
+\* ------------------------------------------------------------ host lists: HOST=ADDRESS items, or a mapping HOST: address | [addresses]
+\* the addresses of one host, in the order they are written
+RECURSIVE ItemsOfHost(_, _)
+ItemsOfHost(sq, h) == IF sq = <<>> THEN <<>>
+                      ELSE (IF ItemKey(Head(sq).v) = h THEN <<ItemVal(Head(sq).v)>> ELSE <<>>) \o ItemsOfHost(Tail(sq), h)
+HostsIn(x) == IF IsM(x) THEN Keys(x) ELSE IF IsL(x) THEN {ItemKey(x.v[i].v) : i \in 1..Len(x.v)} ELSE {}
+AddrsOf(x, h) == IF IsM(x) THEN (IF h \in Keys(x) THEN (IF IsL(Get(x, h)) THEN Get(x, h).v ELSE <<Get(x, h)>>) ELSE <<>>)
+                 ELSE IF IsL(x) THEN ItemsOfHost(x.v, h) ELSE <<>>
+RECURSIVE NotIn(_, _)
+NotIn(sq, have) == IF sq = <<>> THEN <<>>
+                   ELSE (IF \E i \in 1..Len(have) : have[i] = Head(sq) THEN <<>> ELSE <<Head(sq)>>) \o NotIn(Tail(sq), have)
+\* what the base lists is kept as it is, in its order; the override adds the addresses the base does not have
+HostsOver(b, o) == M([h \in HostsIn(b) \cup HostsIn(o) |-> L(AddrsOf(b, h) \o NotIn(AddrsOf(o, h), AddrsOf(b, h)))])
 
 \* ------------------------------------------------------------ string-or-list, unique by value
 ToList(x) == IF IsL(x) THEN x.v ELSE IF IsNull(x) THEN <<>> ELSE <<x>>
@@ -123,6 +142,7 @@ Over(b, o, path) ==
   ELSE LET r == RuleAt(path) IN
   CASE r = "replace" -> o
     [] r = "kv" -> M(OverKV(ToKV(b), ToKV(o)))
+    [] r = "hosts" -> HostsOver(b, o)
     [] r = "strlist-unique" -> L(Uniq(ToList(b) \o ToList(o)))
     [] r = "strlist" -> L(ToList(b) \o ToList(o))
     [] r \in {"keyed-port", "keyed-target", "keyed-device", "keyed-mount-secret", "keyed-mount-config"} -> L(Dedup(r, b.v \o o.v))
